@@ -42,6 +42,15 @@ CLAIMED = {
          "For every generated malformation/truncation case and sample: the entry point returns within the watchdog and the sum of Read request sizes stays within 4*len+64KiB; the model shows a `trusting` reader (size/count 0 drives a loop) violates NoStall.",
          "Trusted: the counting reader. Watchdog = 8 s without a result from the worker (generous: normal calls take microseconds).",
          "DESIGN.md section 4 C02"),
+
+ "C14": ("TLA+ spec Fault (ghost allocation counter: NoBlowup; `trusting` deviation violates it) model-checked by TLC; every size-like field of every generated container file rewritten with each large value class, samples with mutations, long-token XMP and random bytes run one call at a time between two runtime.ReadMemStats",
+         "For ~36k generated cases x entry points (incl. PreviewCR3, isobmff.Reader with preview callback): TotalAlloc delta <= 4 MiB + 16*len; a worker that dies allocating or needs > 15 s is a violation.",
+         "Trusted: runtime.MemStats, single-goroutine workers with GC off. Only fields the generator's field map knows are rewritten.",
+         "DESIGN.md section 4 C14"),
+ "C15": ("TLA+ spec Log (log steps as stuttering steps, level-guarded marshalers over file-declared counts, writer failure, default level silent; deviations `unguarded` and `print` violate MarshalOK/Silent) model-checked by TLC; a sample of the fault corpus biased to count-field rewrites is replayed at the default configuration and under SetLogger for 7 levels x {discard, buffer, failing writer}; value/error compared with the default run, fd 1+2 byte count at the default configuration",
+         "For every sampled case and entry point: result under every level/writer equals the default-level result, no panic; 0 bytes on fd 1/2 at the default level.",
+         "Trusted: fstat-based fd size accounting of the worker. Quick runs all writers at trace/info and a third of the other level x writer pairs.",
+         "DESIGN.md section 4 C15"),
 }
 NOT_APPLICABLE = {
  "C18": "Bit-for-bit equality of AVX and Go float32 DCT kernels and their error bound against the real DCT-II are IEEE-754 statements over 2^(32*64) inputs; TLA+/TLC has no floating point and the kernels have no state machine to specify (DESIGN.md section 5).",
